@@ -98,6 +98,10 @@ def heat_net(draw, max_n=6, labels=True, feeders=None, allow_oos=False, max_sect
                              "loss_coefficient": draw(st.sampled_from([50.0, 200.0, 1000.0])), "in_service": True})
             has_free = True
             tot += 0.1
+    # a heat exchanger may be declared against the direction in which it is flown through (the pump decides the direction)
+    for e in elements:
+        if e["table"] == "heat_exchanger" and draw(st.integers(0, 2)) == 0:
+            e["from_junction"], e["to_junction"] = e["to_junction"], e["from_junction"]
     typ = draw(st.sampled_from(["pt", "pt", "auto"]))
     if feeder == "cpm" and not has_free:
         # a mass-flow pump needs one free path, else the system is singular
@@ -135,19 +139,16 @@ def heat_net(draw, max_n=6, labels=True, feeders=None, allow_oos=False, max_sect
     if allow_makeup and feeder in ("cpp", "cpm") and draw(st.integers(0, 2)) == 0:
         # open loop: net consumption / injection inside the loop, balanced by a make-up ext grid that sits on the pump's
         # flow junction (same pressure as the pump fixes there) or on its return junction
-        plift = next((e.get("plift_bar") for e in elements if e["table"] == "circ_pump_pressure"), None)
         for _ in range(draw(st.integers(1, 2))):
             tbl = draw(st.sampled_from(["sink", "sink", "source"]))
             elements.append({"table": tbl, "index": nxt(tbl), "junction": draw(st.integers(0, 2 * n - 1)),
                              "mdot_kg_per_s": draw(fl(0.01, 0.3)), "scaling": draw(st.sampled_from([1.0, 1.0, 0.5])),
                              "in_service": True})
-        if draw(st.booleans()) or (plift is None and False):
-            elements.append({"table": "ext_grid", "index": 0, "junction": 0, "p_bar": p_flow, "t_k": tf,
-                             "type": draw(st.sampled_from(["p", "pt"])), "in_service": True})
-        else:
-            elements.append({"table": "ext_grid", "index": 0, "junction": n,
-                             "p_bar": p_flow - plift if plift is not None else p_flow - draw(fl(0.5, 3.0)), "t_k": t0,
-                             "type": "p", "in_service": True})
+        # the make-up grid sits on the pump's flow junction and fixes the pressure only (the junction receives the pump's
+        # stream, so it is no pure temperature infeed). On the return junction it does not work: a pressure pump determines
+        # that pressure itself (over-determined), and with a mass-flow pump 0 of 17 generated loops converged.
+        elements.append({"table": "ext_grid", "index": 0, "junction": 0, "p_bar": p_flow, "t_k": tf,
+                         "type": "p", "in_service": True})
     if allow_oos and draw(st.integers(0, 2)) == 0:
         k = draw(st.integers(0, len(elements) - 1))
         e = elements[k]
